@@ -150,6 +150,23 @@ impl St {
                     }
                 }
             }
+            Stmt::CreateIndex { cols, .. } => {
+                if has("create_index_inside_session") && !self.sess.is_empty() && !matches!(exp, Expect::Fail(_)) {
+                    return Some("create_index_inside_session".into());
+                }
+                if has("null_in_unique_column") && !matches!(exp, Expect::Fail(_)) {
+                    if let Some(ti) = ti {
+                        let t = self.model.tables[ti].clone();
+                        let cis: Vec<usize> = cols.iter().filter_map(|c| t.col(c)).collect();
+                        if self.model.visible_rows(tx, ti).iter().any(|(_, v)| cis.iter().any(|ci| v[*ci].is_null())) {
+                            return Some("null_in_unique_column".into());
+                        }
+                    }
+                }
+                if has("more_than_3_relations") && !matches!(exp, Expect::Fail(_)) && self.relations + 1 > 3 {
+                    return Some("more_than_3_relations".into());
+                }
+            }
             Stmt::CreateTable { pk, uniques, .. } => {
                 let n = 1 + uniques.len() as u32 + pk.is_some() as u32;
                 if has("more_than_3_relations") && !matches!(exp, Expect::Fail(_)) && self.relations + n > 3 {
@@ -187,6 +204,7 @@ impl St {
                 }
             }
             Stmt::CreateTable { pk, uniques, .. } => self.relations += 1 + uniques.len() as u32 + pk.is_some() as u32,
+            Stmt::CreateIndex { .. } => self.relations += 1,
             _ => {}
         }
     }
@@ -300,7 +318,9 @@ pub fn first_violation(events: &[Event], guards: &[String]) -> Option<(usize, St
             }
             Event::Commit(k) => {
                 let Some(tx) = st.sess.remove(k) else { continue };
-                if st.model.commit_must_fail(tx) {
+                if st.model.txs[tx].status == TxStatus::Aborted {
+                    st.end_session(*k, true);
+                } else if st.model.commit_must_fail(tx) {
                     st.model.abort(tx);
                     st.end_session(*k, true);
                 } else {
@@ -316,7 +336,28 @@ pub fn first_violation(events: &[Event], guards: &[String]) -> Option<(usize, St
                 st.model.abort(tx);
                 st.end_session(*k, true);
             }
-            Event::Vacuum | Event::Reopen(_) => {
+            Event::Vacuum => {
+                if has("session_open_across_vacuum") && !st.sess.is_empty() {
+                    return Some((i, "session_open_across_vacuum".into()));
+                }
+                if has("vacuum_with_more_than_one_table") && st.relations > 1 {
+                    return Some((i, "vacuum_with_more_than_one_table".into()));
+                }
+                if has("vacuum_of_updated_rows") && !st.updated_tables.is_empty() {
+                    return Some((i, "vacuum_of_updated_rows".into()));
+                }
+                if has("vacuum_after_rolled_back_delete") && (!st.delete_rolled_back.is_empty() || !st.sess_deleted.is_empty()) {
+                    return Some((i, "vacuum_after_rolled_back_delete".into()));
+                }
+                let ks: Vec<u32> = st.sess.keys().copied().collect();
+                for k in ks {
+                    let tx = st.sess[&k];
+                    st.model.abort(tx);
+                    st.end_session(k, true);
+                }
+                st.vacuumed = true;
+            }
+            Event::Reopen(_) => {
                 if matches!(ev, Event::Vacuum) && has("vacuum_with_more_than_one_table") && st.relations > 1 {
                     return Some((i, "vacuum_with_more_than_one_table".into()));
                 }
